@@ -32,7 +32,8 @@ def run_ho(rep, pid, thorough):
     """HO.tla: higher-order operators over an ASYNCHRONOUS outer source (MergeAll / MergeMap / ConcatAll / FlatMap / CombineLatestAll / ZipAll)."""
     cfgs = [ho_cfg('ho-all', MaxSteps=6 if thorough else 5), ho_cfg('ho-all-nocut', MaxSteps=7 if thorough else 6, Cuts='FALSE'),
             ho_cfg('ho-all-sync-inner', MaxSteps=6 if thorough else 5, SyncSetName='"ends"'),
-            ho_cfg('ho-all-downstream-cut', MaxSteps=7 if thorough else 6, Cuts='FALSE', TailSetName='"cuts"')]
+            ho_cfg('ho-all-downstream-cut', MaxSteps=7 if thorough else 6, Cuts='FALSE', TailSetName='"cuts"'),
+            ho_cfg('ho-flavours', MaxSteps=6 if thorough else 5, Cuts='FALSE', InstSetName='"flavours"')]
     pp.run(rep, pid, cfgs, modes='ctl-unsafe,ctl-safe', module='HOGen', replay_cmd='replay-multi', class_props=HO_CLASS_PROPS, prefix='multi.')
 
 
